@@ -99,7 +99,6 @@ def _rel(op, a, b):
 
 class Sym:
     __slots__ = ("e",)
-    __array_priority__ = 1000
 
     def __init__(self, e):
         self.e = sp.sympify(e)
@@ -173,7 +172,10 @@ class Sym:
         return self
 
     def __abs__(self):
-        return wrap(sp.Abs(self.e))
+        e = self.e
+        if e.is_Atom or e.is_number or len(str(e)) < 200:
+            return wrap(sp.Abs(e))
+        return wrap(sp.Abs(e, evaluate=False))
 
     # -- comparisons --------------------------------------------------------------
     def __lt__(self, o):
@@ -285,7 +287,6 @@ def _pow(a, b):
 
 class SymBool:
     __slots__ = ("e",)
-    __array_priority__ = 1000
 
     def __init__(self, e):
         self.e = e
